@@ -6,7 +6,7 @@ import linecache
 import sys
 import threading
 import warnings
-from contextlib import asynccontextmanager
+from contextlib import AsyncExitStack, asynccontextmanager
 
 import stackscope
 from stackscope import Context, Stack, extract
@@ -73,6 +73,10 @@ def render_task(spec, funcs, blocklines):
     for i, nz in enumerate(nzs):
         if via == "acm" and i == 0:
             last_with_line = emit(ind, "async with %s_cm() as n%d:" % (name, i))
+        elif via == "exitstack" and i == 0 and (len(nzs) >= 2 or spec.get("block") != "aexit"):
+            # the nursery is entered through an AsyncExitStack: it shows up as a child context of the stack's context
+            last_with_line = emit(ind, "async with AsyncExitStack() as es%d:" % i)
+            emit(ind + 1, "n%d = await es%d.enter_async_context(trio.open_nursery())" % (i, i))
         else:
             last_with_line = emit(ind, "async with trio.open_nursery() as n%d:" % i)
         ind += 1
@@ -148,7 +152,8 @@ def render_task(spec, funcs, blocklines):
     fname = "<c14-%d-%s>" % (NSRC[0], name)
     src = "\n".join(lines) + "\n"
     linecache.cache[fname] = (len(src), None, src.splitlines(True), fname)
-    ns = {"trio": trio, "FUNCS": funcs, "asynccontextmanager": asynccontextmanager, "__name__": "c14tasks"}
+    ns = {"trio": trio, "FUNCS": funcs, "asynccontextmanager": asynccontextmanager, "AsyncExitStack": AsyncExitStack,
+          "__name__": "c14tasks"}
     exec(compile(src, fname, "exec"), ns)
     funcs[name] = ns[name]
     funcs[name + ":file"] = fname
